@@ -647,7 +647,35 @@ class ObjRunner:
                     if call.func.attr in c.methods:
                         return self.run_function(c.methods[call.func.attr], selfobj, args, kw)
             return None  # the base is outside the repository (object, sax.ContentHandler)
-        if isinstance(call.func, ast.Attribute):
+        if name.split(".")[0] == "itertools" and "itertools" not in interp.env and not kw.keys() - {"repeat", "r"}:
+            import itertools as _it
+            fn_ = name.split(".", 1)[1] if "." in name else ""
+            me = self
+
+            def seqs(xs):
+                return [list(x) if isinstance(x, (list, tuple, range, str, dict, set, frozenset, GenModel)) or hasattr(x, "__next__") else None for x in xs]
+            if fn_ == "count" and len(args) <= 2 and all(isinstance(a, int) for a in args):
+                start, step = (list(args) + [0, 1][len(args):])[:2]
+                return range(start, start + 100000 * (step or 1), step or 1)  # as far as any loop of the repository could ever count
+            if fn_ in ("chain", "chain.from_iterable"):
+                parts = seqs(args if fn_ == "chain" else list(args[0]))
+                if None not in parts:
+                    return [x for p_ in parts for x in p_]
+            if fn_ == "islice" and len(args) >= 2 and None not in seqs(args[:1]):
+                return list(_it.islice(seqs(args[:1])[0], *args[1:]))
+            if fn_ in ("takewhile", "dropwhile", "filterfalse") and len(args) == 2 and callable(args[0]) and None not in seqs(args[1:]):
+                pred = lambda x: me._apply(args[0], [x], {}, call)  # noqa: E731
+                return list(getattr(_it, fn_)(pred, seqs(args[1:])[0]))
+            if fn_ in ("zip_longest", "combinations", "permutations", "pairwise", "accumulate", "repeat") and None not in seqs(args[:1] if fn_ in ("combinations", "permutations", "repeat") else args):
+                if fn_ == "repeat" and len(args) == 2:
+                    return [args[0]] * args[1]
+                if fn_ in ("combinations", "permutations"):
+                    return [list(t) for t in getattr(_it, fn_)(seqs(args[:1])[0], *args[1:])]
+                if fn_ in ("zip_longest", "pairwise"):
+                    return [list(t) for t in getattr(_it, fn_)(*seqs(args), **({"fillvalue": kw["fillvalue"]} if "fillvalue" in kw else {}))]
+        stdlib_recv = isinstance(call.func, ast.Attribute) and isinstance(call.func.value, ast.Name) and call.func.value.id not in interp.env and \
+            call.func.value.id in ("operator", "functools", "itertools", "types", "collections", "pathlib")
+        if isinstance(call.func, ast.Attribute) and not stdlib_recv:
             recv = interp.ev(call.func.value)
             attr = call.func.attr
             if isinstance(recv, dict) and recv.get("__class__") == "re.Pattern" and attr in ("match", "fullmatch", "search"):
@@ -723,7 +751,7 @@ class ObjRunner:
             fn_ = interp.ev(call.func)
             if callable(fn_) and not isinstance(fn_, dict):
                 return self._apply(fn_, args, kw, call)  # TABLE.get(key, default)(...)
-        if name.startswith("operator.") and hasattr(__import__("operator"), name[9:]) and "operator" not in interp.env:
+        if name.startswith("operator.") and name[9:] not in ("methodcaller", "itemgetter", "attrgetter") and hasattr(__import__("operator"), name[9:]) and "operator" not in interp.env:
             return self._apply(getattr(__import__("operator"), name[9:]), args, kw, call)
         if name == "next" and name not in interp.env and args and isinstance(args[0], list) and isinstance(call.args[0], (ast.GeneratorExp, ast.ListComp)):
             # next(<generator expression>, default): the first element (the expression was evaluated eagerly; its elements have no effects here)
